@@ -684,6 +684,30 @@ impl Calendar {
         }
     }
 
+    /// The era and era year of an arithmetic year, for the calendars that count the years
+    /// before their epoch in an era of their own.
+    pub(crate) fn era_year_for_arithmetic_year(
+        &self,
+        year: i32,
+    ) -> Option<(TinyAsciiStr<16>, i32)> {
+        let (era, inverse_era) = match self.0 .0.kind() {
+            AnyCalendarKind::Gregorian
+            | AnyCalendarKind::Japanese
+            | AnyCalendarKind::JapaneseExtended => (tinystr!(16, "ce"), tinystr!(16, "bce")),
+            AnyCalendarKind::Coptic => (tinystr!(16, "coptic"), tinystr!(16, "coptic-inverse")),
+            AnyCalendarKind::Ethiopian => {
+                (tinystr!(16, "ethiopic"), tinystr!(16, "ethiopic-inverse"))
+            }
+            AnyCalendarKind::Roc => (tinystr!(16, "roc"), tinystr!(16, "roc-inverse")),
+            _ => return None,
+        };
+        Some(if year > 0 {
+            (era, year)
+        } else {
+            (inverse_era, 1i32.saturating_sub(year))
+        })
+    }
+
     pub(crate) fn get_calendar_default_era(&self) -> Option<EraInfo> {
         match self.0 .0.kind() {
             AnyCalendarKind::Buddhist => Some(era::BUDDHIST_ERA),
